@@ -176,4 +176,9 @@ PROPS = {
         "status": "progress and item bound proved; isolation / no-terminator: see Prop file",
         "assumptions": ["the slice based parser model equals src/mapping.rs (checked by the record-stream correspondence)"],
     },
+    "C01": {"theorems": [], "level_text": "", "level_note": "", "rule": ""},
+    "C02": {"theorems": [], "level_text": "", "level_note": "", "rule": ""},
+    "C03": {"theorems": [], "level_text": "", "level_note": "", "rule": ""},
+    "C04": {"theorems": [], "level_text": "", "level_note": "", "rule": ""},
+    "C19": {"theorems": [], "level_text": "", "level_note": "", "rule": ""},
 }
